@@ -2,6 +2,7 @@
 # Runs every seeded change through the quick command of the property it breaks (C10: simhist + process facet only,
 # unless MATRIX_FULL=1) and writes seeded/MATRIX.json. Applies each patch to /repo and reverts it afterwards.
 cd /verif || exit 9
+export VERIF_NO_MINIMISE=1   # detection only: skip the delta-debugging of every replay
 OUT=/verif/seeded/MATRIX.json
 echo "[" > $OUT.tmp; FIRST=1
 for d in /verif/seeded/C1*/; do
